@@ -16,7 +16,7 @@ RULE = ("An environment of typed nodes (floats with length / time / velocity uni
         "also when the same expression is a node value (dimensionless results also in %, and in a custom [dozen]); adding "
         "different dimensions, or requesting a unit of another dimension, must raise. Logical: comparisons "
         "of same-dimension operands (equal, equal after conversion, 1e-8 relative apart, or >= 1e-4 apart; magnitudes "
-        "from 8e-12 to 5e6), ~, !{?ref}, ~!{?ref}, &&, ||, "
+        "from 8e-12 to 5e6; integer nodes compared with each other across units, 250 cm vs 2 m, 1 us vs 1000 ns), ~, !{?ref}, ~!{?ref}, &&, ||, "
         "parentheses, evaluated directly. Templates: text with {{?ref}}, {{?ref}[slice]}, {{?ref}:format} and "
         "single-brace noise, expected via Python's format(). Non-trivial: >=3 operators with mixed priorities and >=2 "
         "different units, or a custom unit, or a negated comparison / definedness test. Distinct = distinct case JSON.")
@@ -39,7 +39,12 @@ CUSTOM = ("clen", "2", "cm")     # $unit clen = 2 cm  -> [clen]
 CUSTOM0 = ("dozen", "12")        # $unit dozen = 12   -> [dozen], a dimensionless custom unit
 NODES = {"a": ("float", 10.0, "m"), "b": ("float", 300.0, "cm"), "t": ("float", 2.0, "min"), "v": ("float", 36.0, "km/h"),
          "n": ("int", 4, None), "x": ("float", 0.5, None), "flag": ("bool", True, None), "off": ("bool", False, None),
-         "name": ("str", "Will Smith", None), "id": ("int", 345, None), "w": ("float", 62.3, "kg")}
+         "name": ("str", "Will Smith", None), "id": ("int", 345, None), "w": ("float", 62.3, "kg"),
+         "plank": ("int", 250, "cm"), "gap": ("int", 2, "m"), "pulse": ("int", 1, "us"), "window": ("int", 1000, "ns"),
+         "span": ("int", 3, "km")}
+# integer nodes compared with each other across units: (left, right) -> relation of left to right
+INT_PAIRS = [("plank", "gap", "gt"), ("gap", "plank", "lt"), ("pulse", "window", "eq"), ("window", "pulse", "eq"),
+             ("span", "plank", "gt"), ("plank", "span", "lt"), ("gap", "span", "lt")]
 NODE_DIM = {"a": "len", "b": "len", "t": "time", "v": "vel", "n": "none", "x": "none"}
 
 
@@ -144,7 +149,8 @@ def numeric_case(draw):
         unit = draw(st.sampled_from(["%"] if d2 == "none" else UNITS[d2]))
         wrong_unit = True
     return {"kind": "numeric", "custom": custom, "dim": dim, "expr": e, "unit": unit,
-            "mismatch": other, "wrong_unit": wrong_unit, "as_node": draw(st.booleans())}
+            "mismatch": other, "wrong_unit": wrong_unit, "as_node": draw(st.booleans()),
+            "prelude": custom and draw(st.booleans())}
 
 
 @st.composite
@@ -166,9 +172,15 @@ def logical_case(draw):
         return ["cmp", left, op, rel, dim, draw(st.sampled_from(UNITS[dim])), factor]
 
     def term(d):
-        k = draw(st.sampled_from(["cmp", "cmp", "cmp", "bool", "defined", "not", "par"] if d > 0 else ["cmp", "bool", "defined"]))
+        k = draw(st.sampled_from(["cmp", "cmp", "cmp", "bool", "defined", "not", "par", "cmpn"] if d > 0 else
+                                 ["cmp", "bool", "defined", "cmpn"]))
         if k == "cmp":
             return comparison()
+        if k == "cmpn":
+            a, b, rel = draw(st.sampled_from(INT_PAIRS))
+            # 1 us vs 1000 ns is an equality reached through a conversion: tolerant operators only
+            op = draw(st.sampled_from(["==", "<=", ">="] if rel == "eq" else ["==", "!=", "<", ">", "<=", ">="]))
+            return ["cmpn", a, op, b, rel]
         if k == "bool":
             return draw(st.sampled_from([["lit", True], ["lit", False], ["bref", "flag"], ["bref", "off"]]))
         if k == "defined":
@@ -189,7 +201,8 @@ def logical_case(draw):
             n_and = draw(st.sampled_from([1, 1, 2, 3]))
             ors.append([term(d) for _ in range(n_and)])
         return ["or", ors]
-    return {"kind": "logical", "custom": custom, "tree": tree(draw(st.integers(0, 2))), "as_node": draw(st.booleans())}
+    return {"kind": "logical", "custom": custom, "tree": tree(draw(st.integers(0, 2))), "as_node": draw(st.booleans()),
+            "prelude": custom and draw(st.booleans())}
 
 
 @st.composite
@@ -325,11 +338,33 @@ def stats(e, acc=None):
     return acc
 
 
-def make_env(custom, extra=""):
+def make_env(custom, extra="", alt=False):
     from scinumtools.dip import DIP
     with DIP(name=f"c18_{next(_uid)}") as p:
-        p.add_string(env_text(custom) + ("\n" + extra if extra else ""))
+        text = env_text(custom)
+        if alt:
+            # an unrelated earlier text of the same process that gave the custom units another meaning
+            text = text.replace(f"$unit {CUSTOM[0]} = {CUSTOM[1]} {CUSTOM[2]}", f"$unit {CUSTOM[0]} = 7 mm")
+            text = text.replace(f"$unit {CUSTOM0[0]} = {CUSTOM0[1]}", f"$unit {CUSTOM0[0]} = 10")
+        p.add_string(text + ("\n" + extra if extra else ""))
         return p.parse()
+
+
+def prelude(custom, kind, text, unit=None):
+    """Evaluate the same expression text once under other definitions of the custom units (result ignored)."""
+    if not custom:
+        return
+    from scinumtools.dip.solvers import NumericalSolver, LogicalSolver
+    try:
+        env = make_env(True, alt=True)
+        if kind == "numeric":
+            with NumericalSolver(env) as s:
+                s.solve(text, unit)
+        else:
+            with LogicalSolver(env) as s:
+                s.solve(text)
+    except Exception:
+        pass
 
 
 def check_numeric(case, v):
@@ -372,6 +407,9 @@ def check_numeric(case, v):
                                            f"{case['unit']!r} returned {r!r}")
     exp = exp_base / F(case["unit"], custom)
     how = f"expression {text!r} in {case['unit']!r} ({'node value' if case['as_node'] else 'NumericalSolver'})"
+    if case.get("prelude"):
+        prelude(custom, "numeric", text, case["unit"])
+        v.label("same_text_solved_before_under_other_unit_definitions")
     try:
         if case["as_node"]:
             u = f" {case['unit']}" if case["unit"] else ""
@@ -421,6 +459,8 @@ def render_logic(t, custom):
         return "~" + render_logic(t[1], custom)
     if k == "defined":
         return ("~" if t[2] else "") + "!{?" + t[1] + "}"
+    if k == "cmpn":
+        return "{?" + t[1] + "} " + t[2] + " {?" + t[3] + "}"
     _c, left, op, rel, dim, unit2, factor = t
     lv = evaluate(left, custom)
     if rel == "equal":
@@ -453,6 +493,11 @@ def eval_logic(t, custom):
     if k == "defined":
         d = t[1] in NODES
         return (not d) if t[2] else d
+    if k == "cmpn":
+        rel, op = t[4], t[2]
+        return {"eq": {"==": True, "!=": False, "<": False, ">": False, "<=": True, ">=": True},
+                "lt": {"==": False, "!=": True, "<": True, ">": False, "<=": True, ">=": False},
+                "gt": {"==": False, "!=": True, "<": False, ">": True, "<=": False, ">=": True}}[rel][op]
     _c, left, op, rel, dim, unit2, factor = t
     lv = evaluate(left, custom)
     if rel in ("equal", "equal_conv", "close"):
@@ -475,7 +520,7 @@ def fragile(t):
 
 def logic_stats(t, acc=None):
     acc = acc if acc is not None else {"neg": False, "defined": False, "ncmp": 0, "custom": False, "far_from_one": False,
-                                       "close": False}
+                                       "close": False, "int_nodes": False}
     k = t[0]
     if k == "or":
         for ands in t[1]:
@@ -489,6 +534,9 @@ def logic_stats(t, acc=None):
         logic_stats(t[1], acc)
     elif k == "defined":
         acc["defined"] = True
+    elif k == "cmpn":
+        acc["ncmp"] += 1
+        acc["int_nodes"] = True
     elif k == "cmp":
         acc["ncmp"] += 1
         if t[1][0] == "num" and not 1e-2 <= abs(t[1][1]) <= 1e3:
@@ -510,6 +558,8 @@ def check_logical(case, v):
     text = render_logic(t, custom)
     exp = bool(eval_logic(t, custom))
     how = f"logical expression {text!r} ({'node value' if case['as_node'] else 'LogicalSolver'})"
+    if case.get("prelude"):
+        prelude(custom, "logical", text)
     try:
         if case["as_node"]:
             env = make_env(custom, f'result bool = ("{text}")')
@@ -525,7 +575,7 @@ def check_logical(case, v):
     if bool(got) != exp or not isinstance(got, (bool,)) and type(got).__name__ not in ("bool_", "bool"):
         return v.fail("logical-value", f"{how} = {got!r}, direct evaluation gives {exp}")
     s_ = logic_stats(t)
-    v.nt(s_["neg"] or s_["defined"] or s_["custom"] or s_["ncmp"] >= 2)
+    v.nt(s_["neg"] or s_["defined"] or s_["custom"] or s_["ncmp"] >= 2 or s_["int_nodes"])
     v.label("logical", "as_node" if case["as_node"] else "solver")
     if s_["neg"]:
         v.label("negated_expression")
@@ -535,6 +585,8 @@ def check_logical(case, v):
         v.label("magnitude_far_from_one")
     if s_["close"]:
         v.label("equal_within_1e-8")
+    if s_["int_nodes"]:
+        v.label("int_node_vs_int_node_other_unit")
 
 
 def check_template(case, v):
